@@ -454,6 +454,9 @@ static void run_history(const char *dir, char **lines, long *lnos, long nlines)
                 if (ff || bf) nf = split_names(tmp2, fn, VSFIELDMAX);
                 else { nf = vs->wlist.n; for (int j = 0; j < nf; j++) fn[j] = vs->wlist.name[j]; }
                 int bad = 0;
+                /* the library cuts field names at FIELDNAMELENMAX characters */
+                for (int j = 0; j < nb; j++) if (bf && strlen(bn[j]) > FIELDNAMELENMAX) bn[j][FIELDNAMELENMAX] = 0;
+                for (int j = 0; j < nf; j++) if ((ff || bf) && strlen(fn[j]) > FIELDNAMELENMAX) fn[j][FIELDNAMELENMAX] = 0;
                 for (int j = 0; j < nb; j++) {
                     int k; for (k = 0; k < vs->wlist.n; k++) if (!strcmp(bn[j], vs->wlist.name[k])) break;
                     if (k == vs->wlist.n) bad = 1; else brs += vs->wlist.esize[k];
